@@ -282,6 +282,7 @@ func runCheck(args []string) int {
 		total.DigitBoundPruned += s.DigitBoundPruned
 		total.AtomLinks += s.AtomLinks
 		total.TableAbstractions += s.TableAbstractions
+		total.TableRefinements += s.TableRefinements
 		for f := range s.Funcs {
 			funcs[f] = true
 		}
@@ -486,6 +487,7 @@ func runCheck(args []string) int {
 				"known_findings_witnessed":      sortedKeysB(known),
 				"digit_bound_pruned_paths":      total.DigitBoundPruned,
 				"table_reads_abstracted":        total.TableAbstractions,
+				"table_refinement_facts":        total.TableRefinements,
 				"encoding":                      "go/ssa of /repo working tree rebuilt this run (x/tools v0.29.0, InstantiateGenerics), harness overlay tag verif",
 				"load_s":                        prog.LoadS,
 				"ssa_build_s":                   prog.BuildS,
